@@ -646,7 +646,9 @@ func (e *Exec) stepBulk(op *Op, mc *model.Coll) {
 			}
 			if !val.Equal(g, mc.Docs[id]) {
 				if onlyTyping(mc.Docs[id], g) {
-					e.fail([]string{"C11"}, "C11/type-or-zone", fmt.Sprintf("after %s: %s", what, describeDocDiff(id, mc.Docs[id], g)), feats)
+					// the stored value has another Go type than the one written: a typing
+					// violation, and for a matched document also an update that did not happen
+					e.fail(append([]string{"C11"}, props...), "C11/type-or-zone", fmt.Sprintf("after %s: %s", what, describeDocDiff(id, mc.Docs[id], g)), feats)
 				} else {
 					rule := "C03/matched-not-updated"
 					inA := false
